@@ -1,0 +1,106 @@
+//go:build verif
+
+package fasthttp
+
+import (
+	"net"
+	"time"
+)
+
+// Thin pass-through wrappers around the unexported workerPool for the verification harness under /verif
+// (property C13). Compiled only with -tags verif; they add no behaviour.
+
+// VerifWorkerChan is the pool's workerChan (opaque to the harness).
+type VerifWorkerChan = workerChan
+
+// VerifErrHijacked is the error value WorkerFunc returns for a hijacked connection.
+var VerifErrHijacked = errHijacked
+
+// VerifWorkerChanCap reports workerChanCap (0 if GOMAXPROCS=1, else 1).
+func VerifWorkerChanCap() int { return workerChanCap }
+
+// VerifWorkerPool wraps a workerPool.
+type VerifWorkerPool struct {
+	wp      *workerPool
+	scratch []*workerChan
+}
+
+// VerifNewWorkerPool builds a workerPool the way Server.Serve does.
+func VerifNewWorkerPool(maxWorkers int, maxIdle time.Duration, fn ServeHandler, connState func(net.Conn, ConnState), logger Logger) *VerifWorkerPool {
+	return &VerifWorkerPool{wp: &workerPool{
+		WorkerFunc:            fn,
+		MaxWorkersCount:       maxWorkers,
+		MaxIdleWorkerDuration: maxIdle,
+		Logger:                logger,
+		connState:             connState,
+	}}
+}
+
+// Start calls workerPool.Start (spawns the cleaner goroutine).
+func (p *VerifWorkerPool) Start() { p.wp.Start() }
+
+// StartNoCleaner prepares the pool like Start but without the cleaner goroutine,
+// so that the harness can call Clean itself at chosen points.
+func (p *VerifWorkerPool) StartNoCleaner() {
+	p.wp.stopCh = make(chan struct{})
+	p.wp.workerChanPool.New = func() any {
+		return &workerChan{ch: make(chan net.Conn, workerChanCap)}
+	}
+}
+
+// Stop calls workerPool.Stop.
+func (p *VerifWorkerPool) Stop() { p.wp.Stop() }
+
+// Serve calls workerPool.Serve.
+func (p *VerifWorkerPool) Serve(c net.Conn) bool { return p.wp.Serve(c) }
+
+// GetCh calls workerPool.getCh (the first half of Serve).
+func (p *VerifWorkerPool) GetCh() *VerifWorkerChan { return p.wp.getCh() }
+
+// Send performs the second half of Serve on a workerChan obtained from GetCh.
+func (p *VerifWorkerPool) Send(ch *VerifWorkerChan, c net.Conn) { ch.ch <- c }
+
+// Clean calls workerPool.clean with the given MaxIdleWorkerDuration.
+func (p *VerifWorkerPool) Clean(maxIdle time.Duration) {
+	p.wp.MaxIdleWorkerDuration = maxIdle
+	p.wp.clean(&p.scratch)
+}
+
+// State returns workersCount, the ready stack (bottom first) with the lastUseTime stamps, and mustStop.
+func (p *VerifWorkerPool) State() (workersCount int, ready []*VerifWorkerChan, lastUse []time.Time, mustStop bool) {
+	p.wp.lock.Lock()
+	defer p.wp.lock.Unlock()
+	ready = append(ready, p.wp.ready...)
+	for _, ch := range p.wp.ready {
+		lastUse = append(lastUse, ch.lastUseTime)
+	}
+	return p.wp.workersCount, ready, lastUse, p.wp.mustStop
+}
+
+// Counts returns workersCount, len(ready) and mustStop.
+func (p *VerifWorkerPool) Counts() (workersCount, ready int, mustStop bool) {
+	p.wp.lock.Lock()
+	defer p.wp.lock.Unlock()
+	return p.wp.workersCount, len(p.wp.ready), p.wp.mustStop
+}
+
+// SetLastUse overwrites the lastUseTime of ready[i] (virtual clock of the harness).
+func (p *VerifWorkerPool) SetLastUse(i int, t time.Time) {
+	p.wp.lock.Lock()
+	defer p.wp.lock.Unlock()
+	if i >= 0 && i < len(p.wp.ready) {
+		p.wp.ready[i].lastUseTime = t
+	}
+}
+
+// ReadySorted reports whether ready is sorted by lastUseTime (the assumption of clean's binary search).
+func (p *VerifWorkerPool) ReadySorted() bool {
+	p.wp.lock.Lock()
+	defer p.wp.lock.Unlock()
+	for i := 1; i < len(p.wp.ready); i++ {
+		if p.wp.ready[i].lastUseTime.Before(p.wp.ready[i-1].lastUseTime) {
+			return false
+		}
+	}
+	return true
+}
